@@ -1,7 +1,7 @@
 //! C10 — lookups are exact for every possible id and every name.
 
 use super::common::{build_path, expected_facts, PathSel};
-use crate::build::JaxNoise;
+use crate::build::{via_builder_with_failing_calls, Finish, JaxNoise};
 use crate::gen::{self, pick, GenCfg, NameMode, ID_SPACE};
 use crate::model::*;
 use crate::observe::*;
@@ -29,10 +29,16 @@ pub struct Case {
 
 pub fn check(c: &Case, stats: &mut Stats) -> CheckResult {
     let exp = expected_facts(&c.facts, c.path);
-    let ont = match build_path(&c.facts, c.path, &JaxNoise::default()) {
+    // (half of the Builder cases interleave calls that fail and are ignored by the caller)
+    let with_failing_calls = c.path == PathSel::Builder && c.keys.len() % 2 == 1;
+    let built = if with_failing_calls { via_builder_with_failing_calls(&c.facts, Finish::Minimal) } else { build_path(&c.facts, c.path, &JaxNoise::default()) };
+    let ont = match built {
         Ok(o) => o,
         Err(e) => return fail(format!("construct/{}", c.path.name()), e),
     };
+    if with_failing_calls {
+        stats.label("builder-with-ignored-failing-calls");
+    }
     let m = Model::new(&exp);
     let pn = c.path.name();
     // --- iteration and len
@@ -361,7 +367,7 @@ impl Property for C10 {
         }
     }
     fn required_labels(&self, _tier: Tier) -> Vec<&'static str> {
-        vec!["nontrivial", "bulk>65535-terms", "full-sweep", "id0", "id9999999", "adjacent-ids", "duplicate-new_term", "duplicate-gene-names", "query-matches-several-not-all"]
+        vec!["nontrivial", "bulk>65535-terms", "full-sweep", "id0", "id9999999", "adjacent-ids", "duplicate-new_term", "duplicate-gene-names", "query-matches-several-not-all", "builder-with-ignored-failing-calls"]
     }
     fn run_generated(&self, tier: Tier, seed: u64, n: u64, stats: &mut Stats) -> Option<(Value, Failure)> {
         run_typed(strategy(tier), seed, n, stats, check)
